@@ -1251,6 +1251,40 @@ func (t *tb) leqZero(c *ssa.BinOp, negate bool) (string, bool) {
 	return "", false
 }
 
+// leqZeroAff is leqZero with the term itself.
+func (t *tb) leqZeroAff(c *ssa.BinOp, negate bool) (aff, bool) {
+	x, y := t.term(c.X), t.term(c.Y)
+	op := c.Op
+	if negate {
+		switch op {
+		case token.LSS:
+			op = token.GEQ
+		case token.LEQ:
+			op = token.GTR
+		case token.GTR:
+			op = token.LEQ
+		case token.GEQ:
+			op = token.LSS
+		default:
+			return aff{}, false
+		}
+	}
+	var e aff
+	switch op {
+	case token.LSS:
+		e = x.add(y, -1).add(affConst(1), 1)
+	case token.LEQ:
+		e = x.add(y, -1)
+	case token.GTR:
+		e = y.add(x, -1).add(affConst(1), 1)
+	case token.GEQ:
+		e = y.add(x, -1)
+	default:
+		return aff{}, false
+	}
+	return e, e.ok
+}
+
 // cycleMark is the prefix of the placeholder atom for a value that depends on itself (a loop the idioms do not cover);
 // it carries the inlining depth so that a callee's own loops can be told from loop terms passed in as arguments.
 func (t *tb) cycleMark() string {
